@@ -316,7 +316,7 @@ Definition builtin_ref : tref := {| tr_id := 0; tr_path := [] |}.
 Definition direct_of (l : list instr) : option N :=
   match l with [SCall name None] => Some name | _ => None end.
 
-Inductive status := Done | Failed | OutOfFuel.
+Inductive status := Done | Failed (* NoCurrentTemplate *) | Stuck (* circular variable definition, unknown name *) | OutOfFuel.
 
 (* interpreter state: the coded stacks, the values of the top-level variables evaluated so far, the
    variables being evaluated (VariablesStack::m_guardStack) *)
@@ -356,7 +356,7 @@ Section Exec.
     | r => r
     end.
   Definition xret (x : xst) : xres := (x, [], [], Done).
-  Definition xfail (x : xst) : xres := (x, [], [], Failed).
+  Definition xfail (x : xst) : xres := (x, [], [], Stuck).
   Definition seq_list {A : Type} (f : A -> xst -> xres) : list A -> xst -> xres :=
     fix go (l : list A) (x : xst) : xres :=
       match l with
